@@ -42,3 +42,4 @@ PROPS = {
         "explanation": "validity for all draws, surjectivity of the per-partition shuffles onto all tuples of member permutations (independence), aliasing collapse as regression; real getPartitionsNodeIds compared with the model up to renaming on seeded runs",
     },
 }
+NOT_APPLICABLE = {}
